@@ -28,7 +28,7 @@ COUNTS = {'quick': 300, 'thorough': 9000}
 BUDGET = {'quick': 110, 'thorough': 1500}
 TIMEOUT = 200
 SHRINK_LISTS = [['outputs'], ['segments_cut'], ['faults']]
-EXPECTED_PROBES = ['offload_chunks', 'resumed_with_offload', 'partial_output_selection', 'thinned', 'csv_replay',
+EXPECTED_PROBES = ['memory_loader_checked', 'offload_chunks', 'resumed_with_offload', 'partial_output_selection', 'thinned', 'csv_replay',
                    'write_fault', 'query_checked', 'invalid_output_entry']
 RULE = ('plan = seeded (stock case + its disturbance, 0-4 Output devices of 4 shapes, save_every in {1,2,3,5}, limit_store x max_store, '
         '1-3 resumed segments, files in a scratch dir, optional ENOSPC/EIO on the k-th npz write, csv export + replay); non-trivial = '
@@ -226,7 +226,7 @@ def execute(plan):
         raised = None
         with disk:
             try:
-                ss, hist = T.simulate(run_plan, taps_kwargs={'persist': False, 'check_mirror': False})
+                ss, hist = T.simulate(run_plan, taps_kwargs={'persist': False, 'check_mirror': False}, on_segment=_load_plotter)
             except OSError as e:
                 raised = e
                 ss, hist = None, None
@@ -280,6 +280,23 @@ def execute(plan):
                     and ts.y.shape == exp_y.shape and np.array_equal(ts.y, exp_y)):
                 v.append(V('memory_series', _describe(mem_t, ts.x, ts.y, exp_t, exp_x, exp_y), what='rows',
                            thinned=save_every != 1, selected=n_out > 0))
+        # ---- in-memory plotting loader, (re)loaded by the user after every segment
+        pl = hist.get('plotter')
+        if pl is not None and nm:
+            probes['memory_loader_checked'] = 1
+            if pl.get('error'):
+                v.append(V('memory_loader', 'TDS.load_plotter() after segment %d raised %s' % (pl['segment'], pl['error']), what='raised'))
+            else:
+                full_mem = np.hstack([mem_t.reshape(-1, 1), np.asarray(ts.x), np.asarray(ts.y)])
+                got = pl['data']
+                if got is None or got.shape[0] != nm or not np.array_equal(pl['t'], mem_t) or \
+                        not np.array_equal(got[:, :full_mem.shape[1]], full_mem):
+                    v.append(V('memory_loader', 'the plotter loaded after the last of %d segment(s) holds %s rows up to t=%s; the time series '
+                               'holds %d rows up to t=%r' % (len(hist['segments']), None if got is None else got.shape[0],
+                                                            None if got is None or not len(pl['t']) else pl['t'][-1], nm, mem_t[-1]),
+                               what='rows', resumed=len(hist['segments']) > 1))
+                elif exp_names and pl['names'][:1 + len(exp_names)] != ['Time [s]'] + exp_names:
+                    v.append(V('memory_loader', 'labels of the in-memory plotter differ from the owners of the selected slots', what='labels'))
         # ---- files
         npz, lst = ss.files.npz, ss.files.lst
         wrote_fault = bool(hist['faults_fired'].get('enospc') or hist['faults_fired'].get('eio'))
@@ -367,6 +384,21 @@ def execute(plan):
         if hist is not None:
             tdssim.cleanup(hist)
     return res
+
+
+def _load_plotter(ss, hist, si):
+    """What a notebook user does after each run: load the in-memory plotter and look at it (values are copied at once)."""
+    rec = {'segment': si, 'error': None, 't': None, 'data': None, 'names': None}
+    try:
+        ss.TDS.load_plotter()
+        plt = ss.TDS.plt
+        rec['t'] = np.array(plt.t, dtype=float).copy()
+        if len(rec['t']):
+            rec['data'] = np.array(plt.get_values(list(range(plt.nvars))), dtype=float).copy()
+        rec['names'] = list(plt._uname)
+    except Exception as e:
+        rec['error'] = '%s: %s' % (type(e).__name__, str(e)[:120])
+    hist['plotter'] = rec
 
 
 def _describe(t, x, y, et, ex, ey):
